@@ -13,6 +13,8 @@ from __future__ import annotations
 import contextlib
 from fractions import Fraction
 
+import os
+
 import z3
 from fontTools.ttLib.tables import otTables as ot
 from fontTools.ttLib.tables.C_P_A_L_ import Color as CpalColor
@@ -37,6 +39,7 @@ ASC, DESC = 950, -250
 # scalar attributes (opacity, stop offset) are emitted with 3 decimals; concrete values are
 # really rounded even in the algebraic stage, so compare them within half a unit in the 3rd digit
 ATOL = Fraction(1, 1000)
+NUDGE = Fraction(0.00001)  # the exact double nanoemoji adds (svg.py, issue 268)
 
 
 class Obj:
@@ -286,9 +289,14 @@ def T_quad():
     return build
 
 
-def T_depth4():
+def T_depth4(gradient=False):
+    """Translate > group composite > Scale > layers[Skew>glyph, glyph].  With a linear gradient on the second layer the
+    gradient functional under a symbolic non-uniform scale is beyond z3's nonlinear arithmetic (measured: every such
+    query `unknown` at 10-15 s, > 15 min per job) -- that variant is kept for probing (C13_PROBE=1) and is not
+    registered; gradients under a symbolic scale/transform are decided one level at a time by
+    'glyph>Scale>radial', 'Transform>glyph>linear' and 'glyph>Transform>linear'."""
     def build():
-        ll = [xform("Skew", glyph("sq", solid(1, n="a0")), "k"), glyph("tri", linear("l"))]
+        ll = [xform("Skew", glyph("sq", solid(1, n="a0")), "k"), glyph("tri", linear("l") if gradient else solid(2, n="a1"))]
         return xform("Translate", composite(xform("Scale", layers_ref(0, 2), "s")), "t"), ll, []
     return build
 
@@ -328,7 +336,9 @@ TEMPLATES["Transform>PaintColrGlyph"] = T_colrglyph(True)
 TEMPLATES["three glyphs sharing a gradient"] = T_shared_gradient()
 TEMPLATES["Rotate>composite glyph"] = T_composite_glyph()
 TEMPLATES["Translate>quad glyph"] = T_quad()
-TEMPLATES["depth4: Translate>group>Scale>layers[Skew>glyph, glyph>linear]"] = T_depth4()
+TEMPLATES["depth4: Translate>group>Scale>layers[Skew>glyph, glyph>solid]"] = T_depth4()
+if os.environ.get("C13_PROBE"):
+    TEMPLATES["depth4: Translate>group>Scale>layers[Skew>glyph, glyph>linear]"] = T_depth4(gradient=True)
 
 QUICK = ["Transform>glyph>solid", "Translate>glyph>solid", "ScaleAroundCenter>glyph>solid", "RotateAroundCenter>glyph>solid", "SkewAroundCenter>glyph>solid",
          "ScaleUniform>glyph>solid", "Translate>Scale>glyph", "Scale>Translate>glyph", "glyph>linear", "Transform>glyph>linear", "glyph>Transform>linear",
@@ -374,13 +384,26 @@ def same_color(ot_color, svg_str):
     return kind == k2 and (rgb is None or tuple(rgb) == tuple(rgb2)) and idx == idx2
 
 
+def _without_safari_nudge(r, gt):
+    """Safari workaround in svg._apply_gradient_common_parts: an involutory gradientTransform (a reflection) gets
+    0.00001 added to its first entry on purpose (issue 268).  Where the path condition entails that the emitted
+    matrix minus that nudge is involutory, the matrix is read back without it; the nudge itself moves the gradient
+    by <= 1e-5 x coordinate, far below the 3-digit output rounding that is already outside the claim."""
+    if all(not isinstance(v, core.SymNum) for v in gt):
+        return gt
+    n = (gt[0] - NUDGE,) + tuple(gt[1:])
+    if core.check(r.constraints(), z3.Not(ps.aff_eq(ps.mul(n, n), ps.IDENT)), 5000)[0] == core.Verdict.UNSAT:
+        return n
+    return gt
+
+
 def compare(r, font, root, svg_root, Fm):
     """Build the property for one path: leaf-for-leaf equality."""
     with core.post(r):
         FALSE = {"structure (leaf count/order, segment types, fill kinds, colours, references resolve)": (z3.BoolVal(False), [])}
         ol = ots.denote_ot(font, root)
         try:
-            sl = svs.denote_svg(svg_root, r.tokens)
+            sl = svs.denote_svg(svg_root, r.tokens, gradient_transform_hook=lambda gt: _without_safari_nudge(r, gt))
         except KeyError:
             return FALSE  # a url(#id)/href that does not resolve inside its own document
         conj, scal, grad, extra = [], [], [], []
